@@ -524,7 +524,7 @@ func C15Metadata(c *core.Ctx) {
 	for ni, now := range nows {
 		now := now
 		saml.TimeNow = func() time.Time { return now }
-		for v := 0; v < 6; v++ {
+		for v := 0; v < 9; v++ {
 			sp := &saml.ServiceProvider{Key: fix.RSAKey("rsa_a"), Certificate: fix.Cert("rsa_a"), MetadataURL: mustURL("https://sp.example.com/saml/metadata"),
 				AcsURL: mustURL("https://sp.example.com/saml/acs?x=1&y=2"), SloURL: mustURL("https://sp.example.com/saml/slo")}
 			switch v {
@@ -541,12 +541,27 @@ func C15Metadata(c *core.Ctx) {
 				sp.LogoutBindings = []string{saml.HTTPPostBinding}
 				sp.MetadataValidDuration = time.Duration(1 + c.Rng.Int63n(int64(1000*time.Hour)))
 			case 4:
+				// ECDSA certificate (no encryption descriptor) with a chain of two intermediates
 				sp.Key, sp.Certificate = fix.ECKey("ec_256"), fix.Cert("ec_256")
+				sp.Intermediates = []*x509.Certificate{fix.Cert("rsa_b"), fix.Cert("rsa_c")}
 				sp.SignatureMethod = dsig.ECDSASHA256SignatureMethod
 				sp.AuthnNameIDFormat = saml.UnspecifiedNameIDFormat
 			case 5:
 				sp.LogoutBindings = []string{saml.SOAPBinding, saml.HTTPArtifactBinding}
 				sp.AcsURL = mustURL("http://sp.example.com/acs#frag")
+			case 6:
+				// ECDSA certificate, no signing configured: no key descriptor at all
+				sp.Key, sp.Certificate = fix.ECKey("ec_384"), fix.Cert("ec_384")
+				sp.Intermediates = []*x509.Certificate{fix.Cert("rsa_b")}
+			case 7:
+				// RSA certificate with one intermediate, signing configured: two descriptors, two certificates each
+				sp.Intermediates = []*x509.Certificate{fix.Cert("rsa_c")}
+				sp.SignatureMethod = dsig.RSASHA1SignatureMethod
+				sp.LogoutBindings = []string{saml.HTTPRedirectBinding}
+			case 8:
+				sp.Key, sp.Certificate = fix.ECKey("ec_521"), fix.Cert("ec_521")
+				sp.Intermediates = []*x509.Certificate{fix.Cert("ec_256")}
+				sp.SignatureMethod = dsig.ECDSASHA512SignatureMethod
 			}
 			md := sp.Metadata()
 			// "re-parses to an equal value" is exact when the validity instant falls on a millisecond
